@@ -363,6 +363,7 @@ class Executor:
         ev["faulted"] = faulted
         self._bump("calls")
         self._bump("calls:" + spec.family)
+        self._bump("op:" + st["op"])
         if kind == "exc":
             self._bump("calls_raising")
 
